@@ -97,20 +97,13 @@ func zzC18At(d *DNSFilter, t time.Time, client bool, useClient *bool) (o zzC18Ob
 		*useClient = client
 		setts := &Settings{ProtectionEnabled: true, FilteringEnabled: true}
 		d.ApplyAdditionalFiltering(netip.MustParseAddr("192.0.2.18"), "c18", setts)
-		names := map[string]bool{}
-		for _, e := range setts.ServicesRules {
-			names[e.Name] = true
-		}
-
+		// The observable: is a host of the service answered as blocked by
+		// "blocked services" at this moment?
 		rg, errG := d.CheckHost(zzC18GlobalDom, dns.TypeA, setts)
 		rc, errC := d.CheckHost(zzC18ClientDom, dns.TypeA, setts)
-		o.globalBlocked = names[zzC18GlobalSvc]
-		o.clientBlocked = names[zzC18ClientSvc]
-		// The list of rules and the verdict of the host check must tell
-		// the same story.
-		o.foreign = errG != nil || errC != nil ||
-			(rg.Reason == FilteredBlockedService) != o.globalBlocked ||
-			(rc.Reason == FilteredBlockedService) != o.clientBlocked
+		o.globalBlocked = rg.Reason == FilteredBlockedService && rg.IsFiltered
+		o.clientBlocked = rc.Reason == FilteredBlockedService && rc.IsFiltered
+		o.foreign = errG != nil || errC != nil
 	})
 
 	return o
@@ -178,17 +171,25 @@ func TestZZVerifC18Apply(t *testing.T) {
 		}
 
 		// Global schedule: through the HTTP API.
-		body := fmt.Sprintf("{\"schedule\":%s,\"ids\":[%q]}", zzC18ScheduleJSON(v.Zone, v.W), zzC18GlobalSvc)
-		rec := httptest.NewRecorder()
-		req := httptest.NewRequest(http.MethodPut, "/control/blocked_services/update", strings.NewReader(body))
-		d.handleBlockedServicesUpdate(rec, req)
-		if rec.Code != http.StatusOK {
+		putGlobal := func(sched string) (ok bool) {
+			body := fmt.Sprintf("{\"schedule\":%s,\"ids\":[%q]}", sched, zzC18GlobalSvc)
+			rec := httptest.NewRecorder()
+			req := httptest.NewRequest(http.MethodPut, "/control/blocked_services/update", strings.NewReader(body))
+			d.handleBlockedServicesUpdate(rec, req)
+			if rec.Code == http.StatusOK {
+				return true
+			}
+
 			bad++
 			w.put(map[string]any{
 				"kind": "bad", "what": "build", "c": v.C, "zone": v.Zone, "shape": v.Shape, "w": v.W,
-				"detail": fmt.Sprintf("PUT update: %d %s", rec.Code, rec.Body.String()),
+				"detail": fmt.Sprintf("PUT update %s: %d %s", sched, rec.Code, rec.Body.String()),
 			})
 
+			return false
+		}
+
+		if !putGlobal(zzC18ScheduleJSON(v.Zone, v.W)) {
 			return
 		}
 
@@ -206,11 +207,27 @@ func TestZZVerifC18Apply(t *testing.T) {
 
 		clientBS = cbs
 
-		for _, i := range idx {
+		// The rows judged against the global schedule first; then the global
+		// schedule is replaced by an unrelated one (never or always in
+		// effect) and the remaining rows are judged against the client's.
+		rng.Shuffle(len(idx), func(a, b int) { idx[a], idx[b] = idx[b], idx[a] })
+		nGlobal := (len(idx) + rng.Intn(2)) / 2
+		for k, i := range idx {
 			p := v.Pts[i]
 			at := time.Unix(p[0], p[1])
 			want := p[5] == 1
-			client := rng.Intn(2) == 0
+			client := k >= nGlobal
+			if k == nGlobal {
+				other := [][2]int64{{}, {}, {}, {}, {}, {}, {}}
+				if rng.Intn(2) == 0 {
+					other = [][2]int64{{0, 86400}, {0, 86400}, {0, 86400}, {0, 86400}, {0, 86400}, {0, 86400}, {0, 86400}}
+				}
+
+				if !putGlobal(zzC18ScheduleJSON("UTC", other)) {
+					return
+				}
+			}
+
 			o := zzC18At(d, at, client, &useClient)
 			if !o.now.Equal(at) {
 				skipped++
@@ -256,20 +273,11 @@ func TestZZVerifC18Apply(t *testing.T) {
 // pause schedule is in effect).  got is the observed value of "in effect".
 func zzC18Judge(o zzC18Obs, client, want bool) (ok bool, what string, got bool) {
 	if o.foreign {
-		return false, "apply-inconsistent", !want
+		return false, "apply-error", !want
 	}
 
 	if client {
-		// The client's own settings replace the global ones.
-		if o.globalBlocked {
-			return false, "apply-client-global-leak", !want
-		}
-
 		return o.clientBlocked == !want, "apply-client", !o.clientBlocked
-	}
-
-	if o.clientBlocked {
-		return false, "apply-global-client-leak", !want
 	}
 
 	return o.globalBlocked == !want, "apply-global", !o.globalBlocked
